@@ -26,19 +26,11 @@ func ProcessMidiEvents(ctx context.Context, port driver.Port,
 		defer port.Output.Close()
 		portOut := port.Output.SendChannel()
 
-		var ev Event
-		var ok bool
-	root:
-		for {
-			select {
-			case <-ctx.Done():
-				break root
-			case ev, ok = <-midiEventsOut:
-				if ok { // todo: investigate
-					if ev[0]&0b11110000 == NoteOn {
-						score.Score++
-					}
-				}
+		// forwarding goes on until the channel is closed (main closes it once the manager has returned): the
+		// devices end with the same context and still have the Note Offs of their held keys to deliver
+		for ev := range midiEventsOut {
+			if ev[0]&0b11110000 == NoteOn {
+				score.Score++
 			}
 
 			portOut <- ev
